@@ -160,6 +160,16 @@ CHECKS = {
         design_ref="DESIGN.md section 5 C14",
         note="Scaled constants; with compression under encryption the authenticated bound is not stated by the spec "
              "(unauthenticated mode is checked)."),
+    "C15": dict(
+        category="exploration",
+        technique="TLA+ MemModel (which buffers each layer may hold; TLC: Heap <= K + a*files + b*runs) and TraceMem trace "
+                  "validation of peak-heap samples measured by a counting allocator on the real code",
+        text="The model states the bound; the evidence is measured: a counting global allocator records the peak live heap of "
+             "writing (generator to counting sink), repairing and linearly extracting archives of 4-64 MiB (quick) / 16 MiB-1 GiB "
+             "(thorough) on the 4 layer stackings, plus 2000 interleaved files for the per-file/per-run term; TLC validates "
+             "every sample against the bound and the flatness of the peak across sizes.",
+        design_ref="DESIGN.md section 5 C15",
+        note="Exploration level by nature (memory is measured, not derived); release build, compression level 1."),
     "C16": dict(
         technique="TLA+ SafeExtract model (Path::components semantics, filter, mkdir, create) checked by TLC for OnlyUnderOutdir; "
                   "every member-name behaviour of the model extracted with the real mlar binary in a snapshotted sandbox",
